@@ -240,3 +240,37 @@ Proof.
     lia.
   - rewrite Hm. eexists; reflexivity.
 Qed.
+
+(* The result depends on the edge RELATION only: listing the edges in another order, or several times,
+   or discovering them in another sequence, cannot change it. *)
+Lemma reach_ext E E' : (forall a b, dep E a b <-> dep E' a b) -> forall v w, reach E v w -> reach E' v w.
+Proof.
+  intros Hd v w H. induction H as [v|a b c Hab Hbc IH]; [apply reach_refl|].
+  eapply reach_step; [apply Hd; exact Hab|exact IH].
+Qed.
+
+Lemma list_bool_ext (r r' : list bool) : length r = length r' -> (forall v, v < length r -> nth v r false = nth v r' false) -> r = r'.
+Proof.
+  revert r'. induction r as [|x r IH]; intros [|y r'] Hl Hn; try discriminate; [reflexivity|].
+  f_equal.
+  - exact (Hn 0 (Nat.lt_0_succ _)).
+  - apply IH; [cbn in Hl; lia|]. intros v Hv. exact (Hn (S v) (proj1 (Nat.succ_lt_mono _ _) Hv)).
+Qed.
+
+Theorem propagate_judgements_edge_order E E' ml r r' :
+  (forall a b, dep E a b <-> dep E' a b) ->
+  (forall a b, dep E a b -> b < length ml) ->
+  propagate_judgements E ml = Some r -> propagate_judgements E' ml = Some r' -> r = r'.
+Proof.
+  intros Hd Hb H1 H2.
+  assert (Hb' : forall a b, dep E' a b -> b < length ml) by (intros a b H; apply (Hb a b); apply Hd; exact H).
+  destruct (propagate_judgements_spec E ml r Hb H1) as [L1 S1].
+  destruct (propagate_judgements_spec E' ml r' Hb' H2) as [L2 S2].
+  apply list_bool_ext; [congruence|].
+  intros v Hv. rewrite L1 in Hv.
+  destruct (nth v r false) eqn:A, (nth v r' false) eqn:B; try reflexivity; exfalso.
+  - assert (nth v r' false = true) as C; [|congruence].
+    apply (S2 v Hv). intros w Hw. apply (proj1 (S1 v Hv) A). apply (reach_ext E' E); [intros a b; symmetry; apply Hd|exact Hw].
+  - assert (nth v r false = true) as C; [|congruence].
+    apply (S1 v Hv). intros w Hw. apply (proj1 (S2 v Hv) B). apply (reach_ext E E'); [exact Hd|exact Hw].
+Qed.
